@@ -161,6 +161,9 @@ def scenarios(tier):
                     sc = {'dll': DLL, 'stacks': stacks3(*wins), 'base_lat': base, 'late_ok': True,
                           'msgs': [m1, dict(m2, after=n, may_refuse=True)]}
                     items.append((sc, 0))
+                    if base == 1e-3:
+                        # the same with a blocking driver: the second call lands while the sender is inside send_message
+                        items.append((dict(sc, send_cost=0.0003), 0))
     # (d) the application reacts from inside a callback: next message on the same pair from the callback that reports the
     #     end-of-message acknowledgement, a reply in the other direction from the delivery callback
     for wins in [(1, 1, 1), (2, 3, 255), (255, 255, 255)]:
